@@ -1,6 +1,7 @@
 (* C15 — tuning is negotiated as documented (and then obeyed: see the links below).
    This file only pins statements. *)
-From Amq Require Import Lib.Base Gen.Consts Model.Tune Spec.Tune Proofs.Tune Gen.Src Proofs.TuneSrc.
+From Coq Require Import String.
+From Amq Require Import Lib.Base Gen.Consts Model.Tune Spec.Tune Proofs.Tune Gen.Src Proofs.TuneSrc Model.Publish Proofs.PublishSrc.
 
 (* the constant the crate compiles in (regenerated from the crate on every run) is the
    protocol's frame-min-size *)
@@ -45,6 +46,14 @@ Theorem C15_source_is_model : forall c_cm c_fm c_hb s_cm s_fm s_hb,
   gen_make_tune_ok c_cm c_fm c_hb s_cm s_fm s_hb = to_rs (make_tune_ok c_cm c_fm c_hb s_cm s_fm s_hb).
 Proof. exact source_is_model. Qed.
 
+(* ... and the limit the publish path then obeys is computed from the negotiated frame_max as the
+   model says (Channel0Handle::new, translated from the source on every run) *)
+Theorem C15_limit_source_is_model : forall frame_max,
+  gen_Channel0Handle_new frame_max = RsOk "Channel0Handle"%string [("frame_max"%string, payload_limit frame_max)].
+Proof. exact limit_source_is_model. Qed.
+
+Check C15_limit_source_is_model : forall frame_max,
+  gen_Channel0Handle_new frame_max = RsOk "Channel0Handle"%string [("frame_max"%string, payload_limit frame_max)].
 Check C15_source_is_model : forall c_cm c_fm c_hb s_cm s_fm s_hb,
   gen_make_tune_ok c_cm c_fm c_hb s_cm s_fm s_hb = to_rs (make_tune_ok c_cm c_fm c_hb s_cm s_fm s_hb).
 Check C15_frame_min : c_frame_min_size = 4096.
@@ -61,6 +70,7 @@ Check C15_floor : forall c_cm c_fm c_hb s_cm s_fm s_hb,
   (c_frame_min_size <= fm <->
    exists cm hb, make_tune_ok c_cm c_fm c_hb s_cm s_fm s_hb = TuneOk cm fm hb).
 
+Print Assumptions C15_limit_source_is_model.
 Print Assumptions C15_source_is_model.
 Print Assumptions C15_frame_min.
 Print Assumptions C15_negotiation.
